@@ -215,6 +215,8 @@ func (p *Path) prim(fn *ssa.Function, args []Value) Value {
 		return p.predVar(name, x)
 	case "vConcretizeStr":
 		return p.concretizeStr(args[0])
+	case "vXMLScript":
+		return Iface{T: p.w.eng.namedType("io", "Reader"), V: &Native{V: &xmlScript{events: concreteString(args[0], "xml event script")}}}
 	case "vSchedules":
 		if p.sched != nil {
 			panic(unsupported("vSchedules must be called before the first goroutine / channel is created"))
